@@ -68,5 +68,6 @@ Dfs(s, e, maxSize) ==          \* keys[s..e) 0-based, exclusive e; returns <<L, 
                                       IN Walk(k + 1, endsAt[k], << acc[1] \o r[1], acc[2] \o r[2] >>)
          IN Walk(1, s, << <<>>, <<>> >>)
 ShardAlg(maxSize) == LET r == Dfs(0, Len(keys), maxSize) IN << r[1], <<0>> \o r[2] >>
+LCPFormsAgree == \A a \in 1..Len(keys), b \in 1..Len(keys) : a <= b => LCPBytes(keys, a, b) = LCPBytesDef(keys, a, b)
 ShardIsOK == q[1] = -1 => LET r == ShardAlg(q[2]) IN ShardOK(keys, q[2], r[1], r[2])
 ===========================================================================
